@@ -3,6 +3,7 @@ package multicast
 import (
 	"crypto/sha256"
 	"math/rand"
+	"sync"
 	"time"
 
 	"github.com/ethereum/go-ethereum/common"
@@ -14,7 +15,17 @@ import (
 var (
 	cacheCtx = gctx.New()
 	cache    = gcache.New()
+	cacheMu  sync.Mutex
 )
+
+// cacheSetIfNotExist is an atomic test-and-set on the cache. gcache's own SetIfNotExist
+// checks and sets in two steps, so concurrent callers with the same key could all be
+// told that they were first.
+func cacheSetIfNotExist(key string, duration time.Duration) (bool, error) {
+	cacheMu.Lock()
+	defer cacheMu.Unlock()
+	return cache.SetIfNotExist(cacheCtx, key, 1, duration)
+}
 
 func ConvertGIDs(GIDs [][]byte) []boson.Address {
 	var gid []boson.Address
